@@ -17,6 +17,11 @@ CHECKS={
    text='Explicit-state BFS to fixpoint (canonical labelled graph as key) over <=2 (thorough 3) tasks and <=2 epics where every epic argument class (live epic, plain task, unknown, pruned, own id, empty) is tried through new/set in all 3 input modes, interleaved with state changes, prune, compact and plan; in every reached state each task epic_id must name a live epic, epics have none, bad arguments must be rejected with the log unchanged, and human `list --all` must show every live item exactly once under its own epic.',
    note='State key abstracts titles/bodies/history (argued in DESIGN 2.4). Bounded item counts. Server backend conformance-checked; violations confirmed 5x with spawned processes.',
    technique='explicit-state BFS over real commands + invariant'),
+
+ 'C08': dict(engine='SEQ', level='model_checking', design='3/C08',
+   text='Exhaustive enumeration of every store with <=2 tasks (9 state/claim/pruned options x 3 memberships, every acyclic dependency relation, 3 epic-dependency options, optionally pruned epic) and 3 tasks (quick: restricted options; thorough: full), each also reached through 4 history variants (re-assignment between epics, link/unlink noise, reopen, claim churn); on each store the ready/blocked flags, `list --ready` (JSON and human) and `claim` (global and per epic, incl. the no_ready reply) of the real binary are compared with a literal transcription of the manual\'s definition.',
+   note='Stores are synthesised event logs in ergo\'s own format (this reaches the crash-only todo+claimed state); a subset is rebuilt through the real CLI and must observe identically. Distinct timestamps only.',
+   technique='exhaustive small-scope state enumeration + reference model'),
 }
 NA_REASON='check not built yet (work in progress; design in DESIGN.md)'
 m={"version":1,
